@@ -6,7 +6,8 @@ from . import refmodel as R
 YEAR_POOL = [0, 1, -1, 3, 4, -4, 99, 100, -100, 400, -400, 401, 1582, 1899,
              1900, 1901, 1969, 1970, 1999, 2000, 2001, 2004, 2015, 2016,
              2020, 2026, 2099, 2100, 2101, 2400, 9998, 9999, 10000, 10001,
-             -9999, 12345, -2401]
+             -9999, 12345, -2401, 1000, 1800, 1801, 2200, 2201, 2300, 2600,
+             1500, 1700, 2500, 3000]
 REPS = ("cal", "ord", "week")
 OFFSET_POOL = [(0, 0), (1, 0), (-1, 0), (5, 30), (-3, -30), (0, -30),
                (0, 30), (12, 45), (-12, 0), (13, 45), (14, 0), (-11, -59),
